@@ -18,7 +18,7 @@ META = {'claimed': True,
                'thorough tier, and in the quick tier when a proof breaks; the selection logic of crypto_aes.c and crypto_aesctr.c is regenerated and proved consistent for every (CPU bit, self-test '
                'outcome). 33 theorems, unbounded in data, alignment and partition. Bound to the compiled code by the correspondence run: every instruction model against the real instruction on this '
                'CPU (boundary operands, every immediate); the compiled transforms and every cpusupport configuration of sha256.c / crc32c.c / crypto_aes*.c (selection probed white-box; a silent '
-               'fallback is reported) against the models and standards; alignments 0..15, lengths around the thresholds, partitions switching paths inside one stream.',
+               'fallback is reported) against the models and standards; alignments 0..15, lengths around the thresholds, partitions switching paths inside one stream; AES-CTR also in the AES-NI build as configured with -DBROKEN_MM_LOADU_SI64 (the load_si64 work-around branch) and with library allocations at addresses 8 mod 16 (what align_ptr.h exists for); every configuration once more with the library compiled -DNDEBUG.',
  'level_note': 'Trusted: Coq kernel + vm_compute; the x86 instruction semantics in Accel/X86Vec.v, Sse42Crc.v, AesNi.v (validated instruction by instruction against this CPU; the SDM semantics '
                "themselves are trusted); translators x_crc.py, x_aes.py, x_accel.py; the portable AES block function is OpenSSL's (not modelled: equality is stated against FIPS-197). Only paths this "
                'host can execute are run (it has sha_ni, ssse3, sse4_2, aes); ARM paths are out of scope of the property. Print Assumptions: closed under the global context.',
